@@ -71,6 +71,24 @@ CHECKS.update({
    "TLC enumerates injective assignments of dimensions to the 8 visual properties x null masks x modes (lines, heat map, histogram) x aggregate/join/bins options and checks ExactlyOnce, NothingEmpty, Placement, Styles, Points; every emitted case is drawn with the real infiniplot and lines per panel (points, gaps, style equality classes), QuadMesh cells and histogram lines are compared; the dataset is deep-compared before/after.",
    "Legends/labels are not examined; colour-coded heat maps checked for order only without a palette; replayed cases are a sample of the enumerated space."),
 })
+CHECKS.update({
+ "C10": ("CropFS.tla", "DESIGN.md §5.3",
+   "TLA+ file-system model whose writer programs are recorded from the real code; TLC crashes the program at every operation index and explores the documented recovery; every index is realised by SIGKILL of a real forked process at exactly that operation, then immediate reap, data survival and recovery are checked",
+   "For sow, grow, grow_missing and reap (plain, Harvester joblib/h5netcdf, Sampler crops) the operation sequence is recorded on every run and handed to TLC, which checks NoSilentCorruption, RecoveryReachesExact and HarvestedDataSurvives over every crash index and recovery order; each crash index is then realised by killing a forked process immediately before that operation (creat, each half of a write, close, rename, unlink, mkdir, rmdir, rmtree's directory-descriptor deletions); the resulting directory is compared with the model's prediction, an immediate reap must refuse/raise or be exact, previously harvested data must be intact, and the documented recovery (incl. a second kill inside it for a sample) must reach the exact results.",
+   "Kill points are Python-level operation boundaries (writes inside C libraries such as HDF5 are one step); power-loss semantics are out of scope."),
+ "C11": ("CropFS.tla", "DESIGN.md §5.2",
+   "TLA+ interleaving model of growers (programs recorded from the real grow on every run), reap(wait=True) and a progress poller checked exhaustively by TLC (safety + liveness under fairness); counterexamples and simulated schedules forced onto real threads by a deterministic file-operation scheduler",
+   "For 1-3 growers on 1-3 batches (incl. two growers of one batch) TLC explores every interleaving of the recorded grower programs with the reaper's exists/isfile/read loop and the poller's directory listing, checking ReaperNeverSeesPartial, ReaperExact, PollerNeverCountsPartial and ReaperTerminates; every counterexample is replayed on the real code (alarm only if the real reaper raises / returns wrong data / the real poller counts a partial file) and hundreds of simulated schedules are forced onto real threads running the real grow, reap(wait=True) and num_results with conformance of every step's operation kind.",
+   "Scheduling points are operations on results/ (each write split in two); a reader's open+read is one step; path-based file model."),
+ "C13": ("FindMissing.tla", "DESIGN.md §6.2",
+   "TLA+ scan machine of find_missing_cases / is_case_missing / parse_into_cases checked by TLC against an order-independent oracle over all null patterns incl. seven rejected wrong variants; every emitted pattern replayed on real datasets incl. the find -> harvest -> find loop",
+   "TLC enumerates all null patterns (nan/inf/data per cell) for 1-4 parameter dimensions, 1-3 variables with and without an internal dimension, both null criteria, and checks ExactlyTheMissing, GridOrderNoDup, NeverReportsData, SecondScanEmpty, ParseExact; every emitted case builds the real xarray Dataset (int/float/str coordinates, Dataset and DataArray) and compares find_missing_cases, parse_into_cases, is_case_missing and a real Harvester harvest_cases(missing) loop.",
+   "At most 16 locations; the largest shape is model-checked only."),
+ "C14": ("DsStore.tla", "DESIGN.md §6.2",
+   "TLA+ naming machine for one logical data name (every site that turns the name into a file) plus round-trip configuration enumeration checked by TLC; histories replayed with real save_ds/load_ds/save_merge_ds/Harvester/delete_ds and the round-trip identity tested on the real engines",
+   "TLC checks DirExact, DiskIsWant, LoadReturnsLast, MergeSeesPrevious, DeleteWorks, MemIsDisk over all histories of save/load/merge/harvester-sync/delete for names with and without extension on h5netcdf and joblib (the pinned naming deviation F6 is rejected), and enumerates 0-4 dims x dtypes x NaN patterns x attribute sets x chunks; every emitted history and configuration is replayed in a temp directory, the listing and contents compared after every step and dims, coords, values (complex, NaN) and attributes compared after the round trip, lazy vs eager loads included.",
+   "File bytes are not modelled; netcdf4/zarr not installed; dtype widening is a note."),
+})
 NOT_YET = {}
 
 def main():
